@@ -414,6 +414,9 @@ def float_trunc_term(run, x):
             run.throw(ValueError, *ex.args)
         except OverflowError as ex:
             run.throw(OverflowError, *ex.args)
+    exact = _exact_int_of(run, x.t)
+    if exact is not None:
+        return exact
     if run.branch(z3.fpIsNaN(x.t)):
         run.throw(ValueError, "cannot convert float NaN to integer")
     if run.branch(z3.fpIsInf(x.t)):
@@ -426,6 +429,23 @@ def float_trunc_term(run, x):
     else:
         run.assume(z3.And(z3.ToReal(t) >= r, r > z3.ToReal(t) - 1))
     return t
+
+
+def _exact_int_of(run, t):
+    """Lemma: for an integer n with |n| <= 2**53, float(n) is exact and trunc(float(n)) == n.
+    Recognises the term float(n) = fpRealToFP(RNE, ToReal(n)) and checks the bound under the path condition."""
+    try:
+        if t.decl().kind() == z3.Z3_OP_FPA_TO_FP and t.num_args() == 2 and z3.is_real(t.arg(1)):
+            r = t.arg(1)
+            if r.decl().kind() == z3.Z3_OP_TO_REAL:
+                n = r.arg(0)
+                lim = 2 ** 53
+                if not run.feasible(z3.Or(n > lim, n < -lim)):
+                    run.note("lemma used: an int with |n| <= 2**53 converts to float exactly, so int(float(n)) == n")
+                    return n
+    except Exception:
+        pass
+    return None
 
 
 def _to_fp(run, v):
@@ -1483,6 +1503,14 @@ def _minmax(which):
 
 CALLS[id(builtins.min)] = (builtins.min, _minmax("min"))
 CALLS[id(builtins.max)] = (builtins.max, _minmax("max"))
+
+
+@callm(builtins.divmod)
+def b_divmod(run, a, b):
+    if isinstance(a, VInt) and isinstance(b, VInt):
+        q, r = floordivmod(run, a.t, b.t)
+        return VTuple([VInt(int, q), VInt(int, r)])
+    raise Unsupported("divmod of non-ints")
 
 
 @callm(builtins.ord)
